@@ -7,6 +7,7 @@ CONSTANTS
   MaxIvl = 1600
   MaxSend = 7
   FineTime = FALSE
+  SlowWrites = TRUE
   FailAts = {0, 1, 2, 7}
   MaxDepth = 99
 INVARIANTS C12_Schedule C12_NothingLeft
